@@ -38,7 +38,7 @@ func solverList() []solverSpec {
 	}
 }
 
-func (o *Obligation) smtCase(footer []string, mask int) string {
+func (o *Obligation) smtCase(footer []string, mask int) (string, string) {
 	as := append([]*Term{}, o.ex.Assumes[:o.NAssume]...)
 	as = append(as, o.Guard)
 	for k, sp := range o.Splits {
@@ -48,7 +48,39 @@ func (o *Obligation) smtCase(footer []string, mask int) string {
 			as = append(as, Not(sp))
 		}
 	}
-	return SMTQuery(as, o.Goal, []string{"(set-logic ALL)", "; obligation " + o.Name + fmt.Sprintf(" case %d", mask), "; " + o.Note, "; " + o.Pos.String()}, footer)
+	hdr := []string{"(set-logic ALL)", "; obligation " + o.Name + fmt.Sprintf(" case %d", mask), "; " + o.Note, "; " + o.Pos.String()}
+	return SMTQuery(as, o.Goal, hdr, footer), qfText(as, o.Goal, hdr, footer)
+}
+
+// qfText: the quantifier-free strengthening of the query, or "" when there is nothing to eliminate
+func qfText(as []*Term, goal *Term, hdr, footer []string) string {
+	any := hasQuant(goal)
+	for _, a := range as {
+		if hasQuant(a) {
+			any = true
+			break
+		}
+	}
+	if !any {
+		return ""
+	}
+	as2, g2, ok := qfVersion(as, goal)
+	if !ok {
+		return ""
+	}
+	h2 := append([]string{}, hdr...)
+	h2 = append(h2, "; quantifier-free version: goal-side quantifiers skolemised, hypothesis-side instantiated")
+	return SMTQuery(as2, g2, h2, footer)
+}
+
+func (o *Obligation) smtBoth(footer []string) (string, string) {
+	if o.Kind == "cover" {
+		return o.smt(footer), ""
+	}
+	as := append([]*Term{}, o.ex.Assumes[:o.NAssume]...)
+	as = append(as, o.Guard)
+	hdr := []string{"(set-logic ALL)", "; obligation " + o.Name, "; " + o.Note, "; " + o.Pos.String()}
+	return SMTQuery(as, o.Goal, hdr, footer), qfText(as, o.Goal, hdr, footer)
 }
 
 var quantMemo = map[*Term]bool{}
@@ -88,7 +120,45 @@ func (o *Obligation) smt(footer []string) string {
 }
 
 func runSolver(sp solverSpec, file string, timeout time.Duration) (status, out string, secs float64) {
-	ctx, cancel := context.WithTimeout(context.Background(), timeout+2*time.Second)
+	return runSolverCtx(context.Background(), sp, file, timeout)
+}
+
+type raceRes struct {
+	sp     solverSpec
+	status string
+	out    string
+	secs   float64
+}
+
+// race runs the given solvers concurrently on one file and returns as soon as `enough` of them have
+// given the same definitive answer (or all have finished).
+func race(sps []solverSpec, file string, timeout time.Duration, enough int) []raceRes {
+	ctx, cancel := context.WithCancel(context.Background())
+	defer cancel()
+	ch := make(chan raceRes, len(sps))
+	for _, sp := range sps {
+		go func(sp solverSpec) {
+			st, out, secs := runSolverCtx(ctx, sp, file, timeout)
+			ch <- raceRes{sp, st, out, secs}
+		}(sp)
+	}
+	var res []raceRes
+	cnt := map[string]int{}
+	for range sps {
+		r := <-ch
+		res = append(res, r)
+		if r.status == "sat" || r.status == "unsat" {
+			cnt[r.status]++
+			if cnt[r.status] >= enough {
+				break
+			}
+		}
+	}
+	return res
+}
+
+func runSolverCtx(parent context.Context, sp solverSpec, file string, timeout time.Duration) (status, out string, secs float64) {
+	ctx, cancel := context.WithTimeout(parent, timeout+2*time.Second)
 	defer cancel()
 	args := append([]string{}, sp.Args[1:]...)
 	switch {
@@ -112,6 +182,9 @@ func runSolver(sp solverSpec, file string, timeout time.Duration) (status, out s
 		return first, out, secs
 	case "timeout":
 		return "timeout", out, secs
+	}
+	if parent.Err() != nil {
+		return "cancelled", out, secs
 	}
 	if ctx.Err() != nil || strings.Contains(out, "timeout") || strings.Contains(out, "interrupted") {
 		return "timeout", out, secs
@@ -141,13 +214,21 @@ func solveAll(obls []*Obligation, outDir string, timeout time.Duration, thorough
 		if len(o.Splits) > 0 && o.Kind != "cover" && len(o.Splits) <= 6 {
 			for m := 0; m < 1<<len(o.Splits); m++ {
 				cf := filepath.Join(outDir, fmt.Sprintf("%04d_%s.case%d.smt2", i, safeFile(o.Name), m))
-				os.WriteFile(cf, []byte(o.smtCase(footer, m)), 0644)
+				full, qf := o.smtCase(footer, m)
+				os.WriteFile(cf, []byte(full), 0644)
+				if qf != "" {
+					os.WriteFile(cf+".qf", []byte(qf), 0644)
+				}
 				cases[i] = append(cases[i], cf)
 			}
 			files[i] = cases[i][0]
 			continue
 		}
-		os.WriteFile(f, []byte(o.smt(footer)), 0644)
+		full, qf := o.smtBoth(footer)
+		os.WriteFile(f, []byte(full), 0644)
+		if qf != "" {
+			os.WriteFile(f+".qf", []byte(qf), 0644)
+		}
 		cases[i] = []string{f}
 	}
 	var wg sync.WaitGroup
@@ -176,31 +257,7 @@ func solveAll(obls []*Obligation, outDir string, timeout time.Duration, thorough
 				res[i] = r
 				return
 			}
-			r := &Result{O: o, File: files[i], Status: "unknown"}
-			for _, sp := range solverList() {
-				stt, out, secs := runSolver(sp, files[i], timeout)
-				r.Tried = append(r.Tried, fmt.Sprintf("%s:%s:%.2fs", sp.Name, stt, secs))
-				r.Secs += secs
-				if stt == "sat" || stt == "unsat" {
-					if r.Status != "sat" && r.Status != "unsat" {
-						r.Status, r.Solver, r.Output = stt, sp.Name, out
-					}
-					if stt == r.Status {
-						r.Agreed = append(r.Agreed, sp.Name)
-					}
-					if !thorough || len(r.Agreed) >= 2 {
-						break
-					}
-					continue
-				}
-				if r.Output == "" {
-					r.Output = out
-				}
-				if stt == "timeout" && r.Status == "unknown" {
-					r.Status = "timeout"
-				}
-			}
-			res[i] = r
+			res[i] = solveOne(o, files[i], timeout, thorough)
 		}(i)
 	}
 	wg.Wait()
@@ -211,27 +268,67 @@ func (r *Result) OK() bool { return r.Status == r.O.Expect }
 
 func solveOne(o *Obligation, file string, timeout time.Duration, thorough bool) *Result {
 	r := &Result{O: o, File: file, Status: "unknown"}
-	for _, sp := range solverList() {
-		stt, out, secs := runSolver(sp, file, timeout)
-		r.Tried = append(r.Tried, fmt.Sprintf("%s:%s:%.2fs", sp.Name, stt, secs))
-		r.Secs += secs
-		if stt == "sat" || stt == "unsat" {
+	enough := 1
+	if thorough {
+		enough = 2
+	}
+	if _, err := os.Stat(file + ".qf"); err == nil && o.Expect == "unsat" {
+		// quantifier-free strengthening first: unsat there is a sound discharge
+		for _, rr := range race(solverList()[:2], file+".qf", timeout, enough) {
+			r.Tried = append(r.Tried, fmt.Sprintf("qf/%s:%s:%.2fs", rr.sp.Name, rr.status, rr.secs))
+			r.Secs += rr.secs
+			if rr.status == "unsat" {
+				r.Agreed = append(r.Agreed, rr.sp.Name+"(qf-inst)")
+				if r.Status != "unsat" {
+					r.Status, r.Solver = "unsat", rr.sp.Name+"(qf-inst)"
+				}
+			}
+		}
+		if r.Status == "unsat" && len(r.Agreed) >= enough {
+			return r
+		}
+		if r.Status == "unsat" {
+			// thorough: one more opinion from the remaining solver on the quantifier-free file
+			st, _, secs := runSolver(solverList()[2], file+".qf", timeout)
+			r.Tried = append(r.Tried, fmt.Sprintf("qf/%s:%s:%.2fs", solverList()[2].Name, st, secs))
+			r.Secs += secs
+			if st == "unsat" {
+				r.Agreed = append(r.Agreed, solverList()[2].Name+"(qf-inst)")
+			}
+			return r
+		}
+	}
+	sps := solverList()
+	if !thorough {
+		sps = sps[:2]
+	}
+	for _, rr := range race(sps, file, timeout, enough) {
+		r.Tried = append(r.Tried, fmt.Sprintf("%s:%s:%.2fs", rr.sp.Name, rr.status, rr.secs))
+		r.Secs += rr.secs
+		if rr.status == "sat" || rr.status == "unsat" {
 			if r.Status != "sat" && r.Status != "unsat" {
-				r.Status, r.Solver, r.Output = stt, sp.Name, out
+				r.Status, r.Solver, r.Output = rr.status, rr.sp.Name, rr.out
 			}
-			if stt == r.Status {
-				r.Agreed = append(r.Agreed, sp.Name)
-			}
-			if !thorough || len(r.Agreed) >= 2 {
-				break
+			if rr.status == r.Status {
+				r.Agreed = append(r.Agreed, rr.sp.Name)
 			}
 			continue
 		}
 		if r.Output == "" {
-			r.Output = out
+			r.Output = rr.out
 		}
-		if stt == "timeout" && r.Status == "unknown" {
+		if rr.status == "timeout" && r.Status == "unknown" {
 			r.Status = "timeout"
+		}
+	}
+	if !thorough && r.Status != "sat" && r.Status != "unsat" {
+		// last resort in the quick tier: the old z3
+		st, out, secs := runSolver(solverList()[2], file, timeout)
+		r.Tried = append(r.Tried, fmt.Sprintf("%s:%s:%.2fs", solverList()[2].Name, st, secs))
+		r.Secs += secs
+		if st == "sat" || st == "unsat" {
+			r.Status, r.Solver, r.Output = st, solverList()[2].Name, out
+			r.Agreed = append(r.Agreed, solverList()[2].Name)
 		}
 	}
 	return r
